@@ -174,6 +174,26 @@ fn main() {
     // not a finding: the configuration that exposes a ceil_mode clamp which ignores the start padding
     cases.push(("pool-ceil-start-padding-guard", "(passes) k=3 s=2 pads=[1,1] in=10 -> 6", pool(&[1, 1, 10], vec![Dim::Fixed(1), Dim::Fixed(1), sym("h")], 3, 2, [1, 1])));
 
+    // not a finding: narrowing Cast of a shape value >= 256 and back (guards Cast inference)
+    let mut m = M::new();
+    m.input_f32("x", vec![Dim::Fixed(1), sym("big300")], &[1, 300]);
+    m.ki("i1", &[1], &[1]);
+    m.node("Shape", &["x"], &["s"], vec![]);
+    m.node("Gather", &["s", "i1"], &["g"], vec![("axis", Attr::Int(0))]);
+    m.node("Neg", &["g"], &["ng"], vec![]);
+    m.node("Cast", &["g"], &["u"], vec![("to", Attr::Int(2))]);
+    m.node("Cast", &["u"], &["back"], vec![("to", Attr::Int(7))]);
+    m.node("Cast", &["ng"], &["i"], vec![("to", Attr::Int(3))]);
+    m.node("Cast", &["i"], &["back2"], vec![("to", Attr::Int(6))]);
+    cases.push(("narrowing-cast-guard", "(passes) Cast<i64>(Cast<u8>(300)) = 44", m.finish()));
+
+    let mut m = M::new();
+    m.input_f32("x", vec![Dim::Fixed(256)], &[256]);
+    m.node("Shape", &["x"], &["s"], vec![]);
+    m.node("Mul", &["s", "s"], &["a"], vec![]);
+    m.node("Mul", &["a", "a"], &["b"], vec![]);
+    cases.push(("mul-overflow-panic", "infer-panic:...binary.rs:attempt to multiply with overflow (checked builds)", m.finish()));
+
     let dir = vcore::verif_root().join("regressions").join("C10");
     std::fs::create_dir_all(&dir).unwrap();
     for (name, sig, built) in cases {
